@@ -140,7 +140,7 @@ def r2_fields(prog, rep: Report, record: Cls, csvr: Cls, jsonr: Cls):
     rep.fn(load)
     # the keyword arguments the record is built from, as a mapping position by position (sa/paths.elementwise):
     #     field_names()[i]  ->  field_types()[i](row[i])
-    from ..paths import elementwise, strip_versions, subterms, summaries
+    from ..paths import elementwise, show, strip_versions, subterms, summaries
     ps, un = summaries(prog, prog.resolve(csvr, "load"), csvr)
     normal = [p_ for p_ in ps if p_.exit == "return"]
     verdicts = []
@@ -156,8 +156,14 @@ def r2_fields(prog, rep: Report, record: Cls, csvr: Cls, jsonr: Cls):
             continue
         k, v = pair[1], pair[2]
         names_ok = k[0] == "at" and k[1][0] == "mcall" and k[1][1] == "field_names" and k[1][2] == ("self",)
-        v_ok = v[0] == "apply" and v[1][0] == "at" and v[1][1][0] == "mcall" and v[1][1][1] == "field_types" and v[1][1][2] == ("self",) \
-            and len(v[2]) == 1 and v[2][0][0] == "at" and any(t[0] == "eff" and t[1] == "reader" for t in subterms(v[2][0][1]))
+        shape_ok = v[0] == "apply" and v[1][0] == "at" and v[1][1][0] == "mcall" and v[1][1][1] == "field_types" and v[1][1][2] == ("self",) \
+            and len(v[2]) == 1 and v[2][0][0] == "at"
+        v_ok = shape_ok and any(t[0] == "eff" and t[1] == "reader" for t in subterms(v[2][0][1]))
+        if names_ok and shape_ok and not v_ok:
+            # names, types and positions agree, but on this path the row was not parsed by csv.reader (a fast path through a helper of
+            # the class): whether that helper splits like the reader is a value-level question
+            verdicts.append(("unrec", f"on one path the row the fields are read from is `{show(v[2][0][1])[:80]}`, not the result of csv.reader"))
+            continue
         verdicts.append(("ok", "") if names_ok and v_ok else
                         ("viol", "the CSV reader does not build {name: type(value)} from field_names(), field_types() and the parsed row "
                                  "position by position"))
@@ -193,6 +199,13 @@ def r2_fields(prog, rep: Report, record: Cls, csvr: Cls, jsonr: Cls):
                 t = t[2][0]
             return isinstance(t, tuple) and t[0] == "mcall" and t[1] == "field_names" and t[2] == ("self",)
         cond_ok = len(conds) == 1 and conds[0][0] == "cmp" and conds[0][1] == "In" and conds[0][2] == k and names_table(conds[0][3])
+        if pairs_ok and src_ok and not cond_ok and len(conds) == 1 and conds[0][0] == "cmp" and conds[0][1] == "In" and conds[0][2] == k \
+                and isinstance(conds[0][3], tuple) and conds[0][3][0] in ("mcall", "attr", "sub") \
+                and any(t == ("self",) for t in subterms(conds[0][3])):
+            # the keys are filtered by membership in a table the class provides through another accessor (a cached set of the field
+            # names ...): what that accessor returns is not followed here
+            verdicts.append(("unrec", f"the keys are filtered by membership in `{show(conds[0][3])[:80]}`, not in cls.field_names() itself"))
+            continue
         verdicts.append(("ok", "") if pairs_ok and src_ok and cond_ok else
                         ("viol", "JsonRecord.load does not keep exactly the (key, value) pairs whose key is in cls.field_names()"))
     if un or not normal:
@@ -292,8 +305,12 @@ def r3_buffer(prog, rep: Report, csvr: Cls):
     # where does the writer used for writerow come from?  every cached source must be a subscript keyed by cls
     wvar = None
     for n in walk_own(wf.node):
-        if isinstance(n, ast.Call) and isinstance(n.func, ast.Attribute) and n.func.attr == "writerow" and isinstance(n.func.value, ast.Name):
-            wvar = n.func.value.id
+        if isinstance(n, ast.Call) and isinstance(n.func, ast.Attribute) and n.func.attr == "writerow":
+            b_ = n.func.value
+            while isinstance(b_, ast.Attribute):          # sink.writer.writerow(..): the writer travels inside `sink`
+                b_ = b_.value
+            if isinstance(b_, ast.Name):
+                wvar = b_.id
     from ..util import iter_stores
     all_stores = list(iter_stores(wf.node))
     # the names through which the writer travels (w = cls._writer[cls]; result = w; result.writerow(..))
@@ -308,8 +325,9 @@ def r3_buffer(prog, rep: Report, csvr: Cls):
     sources = []
     for t, val, st in all_stores:
         if isinstance(t, ast.Name) and t.id in wnames and val is not None and not isinstance(val, ast.Name) \
-                and not (isinstance(val, ast.Call) and "csv." in src(val.func)):
-            sources.append(val)
+                and not (isinstance(val, ast.Call) and ("csv." in src(val.func) or any(
+                    isinstance(x, ast.Call) and "csv." in src(x.func) for a_ in val.args for x in ast.walk(a_)))):
+            sources.append(val)          # (a freshly constructed writer, alone or wrapped in a record with its buffer, is no cache read)
     stores = [t for t, val, st in all_stores if isinstance(val, ast.Name) and val.id in wnames and not isinstance(t, ast.Name)]
     def _keyed(e):
         return isinstance(e, ast.Subscript) and isinstance(e.slice, ast.Name) and e.slice.id == "cls"
@@ -394,7 +412,19 @@ def r4_one_line(prog, rep: Report, csvr: Cls, jsonr: Cls):
             for a in arms(n.value):
                 if not has_reader(a):
                     bypass.append((n.lineno, src(a)))
-    if rd:
+    def _by_helper(text: str) -> bool:
+        """the other source of the row is a call of a method of the class (`cls._split_plain_line(s)`): what it returns is not
+        followed; a split / strip written in place is what the rule positively knows to differ from the csv reader"""
+        try:
+            e = ast.parse(text, mode="eval").body
+        except SyntaxError:
+            return False
+        return isinstance(e, ast.Call) and isinstance(e.func, ast.Attribute) and isinstance(e.func.value, ast.Name) \
+            and e.func.value.id in (load.params[0], "cls", "self") and e.func.attr not in ("split", "strip", "rstrip", "lstrip")
+    if rd and bypass and all(_by_helper(b[1]) for b in bypass):
+        rep.unrec("C13.R4", load, "csv-load-always-reader", f"on some path the row comes from `{bypass[0][1]}`, a helper of the class, and "
+                  "from csv.reader only otherwise: whether the helper parses like the reader is not decided", line=bypass[0][0])
+    elif rd:
         rep.check("C13.R4", load, "csv-load-always-reader", not bypass, "the parsed row comes from csv.reader on every path",
                   f"on some path the row is produced by `{bypass[0][1] if bypass else ''}` instead of csv.reader: not the inverse of "
                   "the csv writer", scenario="a TSV record whose last string field ends in blanks (or is empty) loses them on load",
